@@ -72,6 +72,16 @@ fn lzip_declared_dict(m: &[u8]) -> usize {
     best
 }
 
+fn mbint(mut v: u64) -> Vec<u8> {
+    let mut o = vec![];
+    while v >= 0x80 {
+        o.push((v as u8) | 0x80);
+        v >>= 7;
+    }
+    o.push(v as u8);
+    o
+}
+
 struct Verdict {
     class: String,
     secs: f64,
@@ -259,6 +269,15 @@ pub fn run(rep: &mut Report, rng: &mut Rng, thorough: bool) {
                 if m.len() <= 3000 {
                     rep.model(model_req("lzip", false, &m, cap), canon(&lzip_decompress(&m, &[4096], cap)));
                 }
+                // the backward member scan of LZIPReaderMT::new against the model scan (Guards.scanFile)
+                if m.len() <= 3000 {
+                    let exp = match guard(|| Ok(LZIPReaderMT::new(std::io::Cursor::new(m.clone()), 1)?.member_count())) {
+                        Outcome::Ok(n) => format!("ok {n}"),
+                        Outcome::Err(k, _) => format!("err {}", kind_name(k)),
+                        Outcome::Panic(_) => "panic".to_string(),
+                    };
+                    rep.model(format!("lzip.scan in={}", hex(&m)), exp);
+                }
                 // LZIPReaderMT on the same bytes (real threads; no schedule control here)
                 let m2 = m.clone();
                 let v = run_case(|| guard(|| {
@@ -397,6 +416,75 @@ pub fn run(rep: &mut Report, rng: &mut Rng, thorough: bool) {
                 let d = json!({"decoder": "bcj2", "declared_size": size, "streams_hex": streams.iter().map(|s| hex(s)).collect::<Vec<_>>(), "case": i});
                 judge(rep, "bcj2", &v, 0, 800 + (size as usize).min(1 << 20), d.clone());
                 rep.case(format!("bcj2:s{}", size_class(size as usize)), true, || d);
+            }
+            9 if i % 20 == 9 => {
+                // generated XZ block headers: every combination of flags / size fields / filter ids / property
+                // sizes, cut by the declared header size at every offset relative to the content
+                let check = *r.pick(&[0u8, 1, 4, 10]);
+                let mut m = vec![0xFD, b'7', b'z', b'X', b'Z', 0, 0, check];
+                m.extend(crc32(&[0, check]).to_le_bytes());
+                for _ in 0..r.range(1, 3) {
+                    let nf = r.range(1, 4) as u8;
+                    let mut c = vec![(nf - 1) | *r.pick(&[0u8, 0x40, 0x80, 0xC0, 0x04])];
+                    if c[0] & 0x40 != 0 {
+                        c.extend(mbint(*r.pick(&[1u64, 127, 128, 1 << 20, u64::MAX >> 1])));
+                    }
+                    if c[0] & 0x80 != 0 {
+                        c.extend(mbint(*r.pick(&[0u64, 1, 127, 128, 1 << 40])));
+                    }
+                    for fi in 0..nf {
+                        let id = if fi + 1 == nf && r.chance(3, 4) { 0x21u64 } else { *r.pick(&[3u64, 4, 5, 6, 7, 8, 9, 10, 11, 0x21, 2, 0x4000]) };
+                        c.extend(mbint(id));
+                        let ps = match id { 0x21 | 3 => *r.pick(&[1u64, 1, 0, 2]), _ => *r.pick(&[0u64, 4, 4, 1, 5]) };
+                        c.extend(mbint(ps));
+                        for _ in 0..ps.min(8) {
+                            c.push(*r.pick(&[0u8, 1, 4, 16, 40, 41, 0xFF]));
+                        }
+                    }
+                    // header_data = content (cut or zero padded) + CRC32: EVERY declared header size from 8 up to
+                    // beyond the content, so that every field is cut at every offset
+                    let first = m.clone();
+                    let mut hs = 8usize;
+                    while hs <= (c.len() + 16).min(1024) {
+                        let mut all = vec![(hs / 4 - 1) as u8];
+                        if r.chance(1, 2) {
+                            // the content runs into the place of the CRC field (parsing happens before the CRC test)
+                            let mut hd = c.clone();
+                            hd.resize(hs - 1, 0);
+                            all.extend(&hd);
+                        } else {
+                            let mut hd = c.clone();
+                            hd.resize(hs - 1 - 4, 0);
+                            all.extend(&hd);
+                            let crc = if r.chance(3, 4) { crc32(&all) } else { r.next() as u32 };
+                            all.extend(crc.to_le_bytes());
+                        }
+                        let mut mm = first.clone();
+                        mm.extend(all);
+                        mm.extend([1u8, 0, 0, b'x', 0, 0, 0, 0]);
+                        let v = run_case(|| xz_decompress(&mm, false, &[4096], cap));
+                        let d = json!({"decoder": "xz", "generated": "block-header", "header_size": hs, "input_hex": hex(&mm), "case": i});
+                        judge(rep, "xz-header", &v, xz_declared_dict(&mm), mm.len(), d);
+                        rep.evaluations += 1;
+                        if hs % 8 == 0 {
+                            rep.model(model_req("xz", false, &mm, cap), canon(&xz_decompress(&mm, false, &[4096], cap)));
+                        }
+                        hs += 4;
+                    }
+                    let mut hd = c.clone();
+                    let hs = ((c.len() + 1 + 4 + 3) / 4 * 4).clamp(8, 1024);
+                    hd.resize(hs - 1 - 4, 0);
+                    let mut all = vec![(hs / 4 - 1) as u8];
+                    all.extend(&hd);
+                    all.extend(crc32(&all).to_le_bytes());
+                    m.extend(all);
+                    m.extend([1u8, 0, 0, b'x', 0, 0, 0, 0]);
+                }
+                let v = run_case(|| xz_decompress(&m, r.chance(1, 2), &[4096], cap));
+                let d = json!({"decoder": "xz", "generated": "block-header", "input_hex": hex(&m), "case": i});
+                judge(rep, "xz-header", &v, xz_declared_dict(&m), m.len(), d.clone());
+                rep.model(model_req("xz", false, &m, cap), canon(&xz_decompress(&m, false, &[4096], cap)));
+                rep.case("xz:generated-header".into(), true, || d);
             }
             _ => {
                 // arbitrary bytes to the container readers
